@@ -22,7 +22,6 @@ name starts with `UNKNOWN` makes `check-sat` answer `unknown`.
 No pysmt import: own reader and own evaluator.  With --log every command and its reply are appended to FILE
 (`> command` / `< reply` lines) before the reply is written to stdout.
 """
-import itertools
 import re
 import sys
 
@@ -407,13 +406,28 @@ class Strict(object):
         if any(n.startswith("UNKNOWN") for n in mentioned if n in scope):
             return "unknown", None
         names = sorted(n for n in scope if n in mentioned)
-        base = {n: (scope[n], self.domain(scope[n])[0]) for n in scope}
-        for vals in itertools.product(*[self.domain(scope[n]) for n in names]):
-            env = dict(base)
-            for n, v in zip(names, vals):
+        env = {n: (scope[n], self.domain(scope[n])[0]) for n in scope}
+        # depth-first enumeration; an assertion is evaluated as soon as its last symbol has a value
+        pos = {n: k for k, n in enumerate(names)}
+        due = [[] for _ in range(len(names) + 1)]
+        for a in live:
+            ks = [pos[n] + 1 for n in self.atoms(a, set()) if n in pos]
+            due[max(ks) if ks else 0].append(a)
+        if not all(self.ev(a, env)[1] for a in due[0]):
+            return "unsat", None
+        doms = [self.domain(scope[n]) for n in names]
+
+        def search(k):
+            if k == len(names):
+                return True
+            n = names[k]
+            for v in doms[k]:
                 env[n] = (scope[n], v)
-            if all(self.ev(a, env)[1] for a in live):
-                return "sat", env
+                if all(self.ev(a, env)[1] for a in due[k + 1]) and search(k + 1):
+                    return True
+            return False
+        if search(0):
+            return "sat", dict(env)
         return "unsat", None
 
     # ------------------------------------------------------------ commands
